@@ -295,6 +295,12 @@ pub fn with_old_format_seed(mut s: Scenario, version: &str) -> Scenario {
     s.seed.push((crate::refmodel::ask_key(&aid), ask.to_string().into_bytes()));
     s.seed.push((crate::refmodel::bid_key(&bid), b_legacy.to_string().into_bytes()));
     s.seed.push((crate::refmodel::bid_key(ID_B3), b_canon.to_string().into_bytes()));
+    // a mixed book: one bid already in the current format, under an id that sorts before the others
+    let b_current = json!({"base": {"denom": s.cfg.base, "amount": size.to_string()}, "accumulated_base": "0", "accumulated_quote": "0", "accumulated_fee": "0",
+        "fee": feev, "id": ID_A2, "owner": buyer2, "price": price, "quote": {"denom": "q1", "amount": total.to_string()}});
+    s.seed.push((crate::refmodel::bid_key(ID_A2), b_current.to_string().into_bytes()));
+    s.l.push(Act::new(&buyer2, vec![], Req::CancelBid { id: ID_A2.into() }));
+    s.l.push(Act::new(&exec, vec![], Req::RejectBid { id: ID_A2.into(), size: Some(inc) }));
     s.l.push(Act::new(&seller, vec![], Req::CancelAsk { id: aid.clone() }));
     s.l.push(Act::new(&exec, vec![], Req::ExpireAsk { id: aid.clone() }));
     s.l.push(Act::new(&exec, vec![], Req::RejectAsk { id: aid.clone(), size: Some(inc) }));
@@ -347,6 +353,7 @@ fn ledger_scenarios(tier: Tier, extra_probes: &dyn Fn(&Cfg, &Menu) -> Vec<Act>) 
     mk("B11/multi-denom/nrnur", with_markers(multi(Cfg::new(0, 2, ("0.25", "0.25"), "R0")), "nrnur"), menu_multi(1, 1), &mut v);
     mk("B11/base-also-convertible", overlap(Cfg::new(0, 2, ("0.25", "0.25"), "R0")), menu_p1(1, 1), &mut v);
     mk("B11/quote-is-base", quote_is_base(Cfg::new(0, 2, ("0.25", "0.25"), "R0")), menu_p1(1, 1), &mut v);
+    mk("B11/P0/rates-1.25-1.5", Cfg::new(0, 1, ("1.25", "1.5"), "R0"), Menu { sizes: vec![4, 10], match_sizes: vec![1, 4, 10], ..menu_p0(1, 1, vec!["1", "2"]) }, &mut v);
     mk("B11/P1/F1/R5", Cfg::new(0, 2, ("0.25", "0.25"), "R5"), menu_p1(1, 1), &mut v);
     mk("B11/P1/F1/R6", Cfg::new(0, 2, ("0.25", "0.25"), "R6"), menu_p1(1, 1), &mut v);
     {
@@ -403,6 +410,90 @@ fn upgrade_family(probes_of: &dyn Fn(&Cfg, &Menu) -> Vec<Act>, restricted: bool)
     v
 }
 
+/// Wide-value closures: the same tiny book (one ask slot, one bid slot, one order size) explored to
+/// fixpoint for many sizes, price pairs and fee rates — values a small regular alphabet never
+/// contains (around powers of ten and of two, u32 / u64 boundaries, long decimals).
+pub fn value_sweep(tier: Tier) -> Vec<Scenario> {
+    let leak = |s: String| -> &'static str { Box::leak(s.into_boxed_str()) };
+    let mut v = vec![];
+    let sizes: Vec<u128> = if tier == Tier::Quick {
+        vec![1, 3, 7, 10, 99, 100, 101, 1000, 65_536, (1u128 << 32) + 1, 1_000_000_000_000_000, 3_000_000_000_000_000_000_007]
+    } else {
+        let mut z: Vec<u128> = (1..=33).collect();
+        z.extend([50, 63, 64, 65, 99, 100, 101, 127, 128, 129, 255, 256, 257, 999, 1000, 1001, 4095, 4096, 9999, 10_000, 10_001, 65_535, 65_536, 65_537, 999_999, 1_000_000,
+            (1u128 << 31) - 1, 1u128 << 31, (1u128 << 32) - 1, 1u128 << 32, (1u128 << 32) + 1, 1_000_000_000_000, (1u128 << 53) + 1, 1_000_000_000_000_000, (1u128 << 63) - 1, 1u128 << 63, (1u128 << 64) - 1, 1u128 << 64, (1u128 << 64) + 1, 3_000_000_000_000_000_000_007, (1u128 << 80) + 5, (1u128 << 94) + 3]);
+        z
+    };
+    let price_pairs: Vec<(&str, &str)> = if tier == Tier::Quick {
+        vec![("1", "2"), ("9", "10"), ("99", "101")]
+    } else {
+        vec![("1", "2"), ("2", "3"), ("9", "10"), ("10", "11"), ("99", "101"), ("999", "1000"), ("1", "1000000"), ("7", "7")]
+    };
+    // (rate pairs: ask, bid) incl. more than four decimals, trailing zeros, above 1
+    let rates: Vec<(&str, &str)> = if tier == Tier::Quick {
+        vec![("0.25", "0.25"), ("0.001", "0.01"), ("0.999", "0.5"), ("0.00125", "0.00005"), ("1.25", "0.010")]
+    } else {
+        vec![("0.25", "0.25"), ("0.001", "0.01"), ("0.999", "0.5"), ("0.1", "0.1"), ("0.333", "0.667"), ("1", "1"), ("0.0000001", "0.5"), ("0.00125", "0.00005"), ("1.25", "0.010"), ("2", "0.2500"), ("0.0100", "1.5")]
+    };
+    for sz in &sizes {
+        for (lo, hi) in &price_pairs {
+            for (ra, rb) in &rates {
+                // keep every amount inside the reference model's range
+                let hi_n: u128 = hi.parse().unwrap_or(1);
+                // (and inside the contract's own 96-bit decimal capacity: beyond it requests are refused as overflowing)
+                if sz.checked_mul(hi_n).map_or(true, |t| t > (1u128 << 95)) {
+                    continue;
+                }
+                let cfg = Cfg::new(0, 1, (ra, rb), "R0");
+                // (a unit match size on a large order would make every remainder 1..size reachable)
+                let mut ms: Vec<u128> = if *sz <= 40 { vec![1, (sz + 1) / 2, *sz] } else { vec![(sz + 1) / 2, sz - sz / 3, *sz] };
+                ms.sort();
+                ms.dedup();
+                let rj = (sz / 3).max(1);
+                let menu = Menu {
+                    ask_slots: 1,
+                    bid_slots: 1,
+                    prices: if lo == hi { vec![*lo] } else { vec![*lo, *hi] },
+                    sizes: vec![*sz],
+                    match_sizes: ms,
+                    reject_sizes: vec![rj],
+                    ask_bases: vec!["base", "conv"],
+                    two_approvers: false,
+                    modifies: vec![],
+                    quotes: vec![],
+                    migrates: vec![],
+                };
+                v.push(scen(leak(format!("sweep/size{sz}/prices{lo}-{hi}/rates{ra}-{rb}")), cfg, menu, vec![]));
+            }
+        }
+    }
+    // decimals: precision 3, increment 1000, long price strings
+    for (k, (lo, hi)) in [("0.001", "0.999"), ("1.001", "1.01"), ("12.345", "12.35"), ("0.125", "1000.5")].iter().enumerate() {
+        if tier == Tier::Quick && k > 1 {
+            break;
+        }
+        for mult in if tier == Tier::Quick { vec![1u128, 7] } else { vec![1u128, 2, 3, 7, 10, 64, 1000] } {
+            let cfg = Cfg::new(3, 1000, ("0.25", "0.001"), "R0");
+            let sz = 1000 * mult;
+            let menu = Menu {
+                ask_slots: 1,
+                bid_slots: 1,
+                prices: vec![*lo, *hi],
+                sizes: vec![sz],
+                match_sizes: vec![1000.min(sz), sz / 2, sz, 125.min(sz)],
+                reject_sizes: vec![1000],
+                ask_bases: vec!["base", "conv"],
+                two_approvers: false,
+                modifies: vec![],
+                quotes: vec![],
+                migrates: vec![],
+            };
+            v.push(scen(leak(format!("sweep/p3/size{sz}/prices{lo}-{hi}")), cfg, menu, vec![]));
+        }
+    }
+    v
+}
+
 fn no_probes(_: &Cfg, _: &Menu) -> Vec<Act> {
     vec![]
 }
@@ -415,6 +506,9 @@ pub fn plan(prop: &str, tier: Tier) -> Plan {
             if prop == "C11" && th {
                 s.push(scen("B22/P1/F1/R4", Cfg::new(0, 2, ("0.25", "0.25"), "R4"), menu_p1(2, 2), vec![]));
             }
+            if th || matches!(prop, "C01" | "C02") {
+                s.extend(value_sweep(tier));
+            }
             if th {
                 // three orders on one side (one owner holding two of them)
                 let slim = |m: Menu| Menu { prices: vec!["2", "3"], sizes: vec![2], match_sizes: vec![1, 2], reject_sizes: vec![], ..m };
@@ -423,7 +517,13 @@ pub fn plan(prop: &str, tier: Tier) -> Plan {
             }
             Plan { scenarios: s, hooks: vec![] }
         }
-        "C04" => Plan { scenarios: ledger_scenarios(tier, &|c, m| probes::reversals(c, m)), hooks: vec![] },
+        "C04" => {
+            let mut s = ledger_scenarios(tier, &|c, m| probes::reversals(c, m));
+            if th {
+                s.extend(value_sweep(tier));
+            }
+            Plan { scenarios: s, hooks: vec![] }
+        }
         "C03" => {
             let mut v = vec![];
             let mk = |name: &str, cfg: Cfg, menu: Menu, v: &mut Vec<Scenario>| {
@@ -529,6 +629,7 @@ pub fn plan(prop: &str, tier: Tier) -> Plan {
             v.push(with_legacy_seed(scen("B11/P1/F1/R0", Cfg::new(0, 2, ("0.25", "0.25"), "R0"), menu_p1(1, 1), vec![])));
             v.extend(upgrade_family(&no_probes, true));
             if th {
+                v.extend(value_sweep(tier));
                 mk("B22/P1/F1/R0", Cfg::new(0, 2, ("0.25", "0.25"), "R0"), menu_p1(2, 2), &mut v);
                 mk("B12/P2/F1/R0", Cfg::new(1, 10, ("0.25", "0.25"), "R0"), menu_p2s(1, 2), &mut v);
                 mk("B21/P2/F0/R0", Cfg::new(1, 10, ("", ""), "R0"), menu_p2s(2, 1), &mut v);
@@ -559,6 +660,8 @@ pub fn plan(prop: &str, tier: Tier) -> Plan {
             mk("B11/base-also-convertible", overlap(Cfg::new(0, 2, ("0.25", "0.25"), "R0")), small(menu_p1(1, 1)), &mut v);
             mk("B11/P1/F1/attrs1", with_attrs(Cfg::new(0, 2, ("0.25", "0.25"), "R0"), &["kyc"], &["kyc"]), small(menu_p1(1, 1)), &mut v);
             mk("B11/multi-denom", multi(Cfg::new(0, 2, ("0.25", "0.25"), "R0")), small(menu_multi(1, 1)), &mut v);
+            mk("B11/P1/rates-0.250-0.10", Cfg::new(0, 2, ("0.250", "0.10"), "R0"), small(menu_p1(1, 1)), &mut v);
+            mk("B11/P0/rates-0.0100-0.010", Cfg::new(0, 1, ("0.0100", "0.010"), "R0"), small(Menu { sizes: vec![500, 1000], ..menu_p0(1, 1, vec!["2", "3"]) }), &mut v);
             mk("B11/P1/F1/attrs-ask-only", with_attrs(Cfg::new(0, 2, ("0.25", "0.25"), "R0"), &["kyc"], &[]), small(menu_p1(1, 1)), &mut v);
             mk("B11/P1/F1/attrs-bid-only", with_attrs(Cfg::new(0, 2, ("0.25", "0.25"), "R0"), &[], &["kyc"]), small(menu_p1(1, 1)), &mut v);
             mk("B11/P1/F1/attrs-listed-twice", with_attrs(Cfg::new(0, 2, ("0.25", "0.25"), "R0"), &["kyc", "kyc"], &["acc", "acc"]), small(menu_p1(1, 1)), &mut v);
@@ -586,6 +689,8 @@ pub fn plan(prop: &str, tier: Tier) -> Plan {
                 let mut cfg = Cfg::new(0, 2, ("0.25", "0.25"), "R0");
                 cfg.approvers = vec![];
                 mk("B11/P1/F1/R0/no-approvers", cfg, menu_p1(1, 1), &mut v);
+                // three lots: partial rejects leaving one third / two thirds
+                mk("B11/P1/three-lots", Cfg::new(0, 2, ("0.25", "0.25"), "R0"), Menu { prices: vec!["2"], sizes: vec![6], match_sizes: vec![2, 6], reject_sizes: vec![2, 4], ..menu_p1(1, 1) }, &mut v);
                 mk("B11/P1/F1/R0/mid-history-migrations", Cfg::new(0, 2, ("0.25", "0.25"), "R0"), Menu { migrates: mid_history_migrations(), ..menu_p1(1, 1) }, &mut v);
             }
             if th {
@@ -613,6 +718,7 @@ pub fn plan(prop: &str, tier: Tier) -> Plan {
             mk("B11/P2/F1", Cfg::new(1, 10, ("0.25", "0.25"), "R0"), plain(menu_p2(1, 1)), &mut v);
             mk("B11/p14/large-amounts", Cfg::new(14, 300_000_000_000_000, ("0.25", "0.25"), "R0"), plain(menu_large(1, 1)), &mut v);
             v.extend(upgrade_family(&|c, m| probes::fee_creates(c, m), false));
+            v.extend(value_sweep(tier));
             if th {
                 mk("B12/P1big/F1", Cfg::new(0, 2, ("0.25", "0.25"), "R0"), plain(menu_p1_big(1, 2)), &mut v);
                 mk("B12/P1/third", Cfg::new(0, 2, ("0.333", "0.333"), "R0"), plain(Menu { sizes: vec![2, 4, 6], match_sizes: vec![1, 2, 3, 4, 5, 6], ..menu_p1(1, 2) }), &mut v);
